@@ -62,6 +62,7 @@ def run(eng, ctx):
     pf = payload_verbatim(eng, ctx)
     if pf is None:
         return
+    SH.constructor_admission(eng, ctx, "C15.D6")  # "for every payload of 2 to 1023 bytes": none of them is refused by the constructor's own checks
     P = ("field", pf)
     mod, cls = eng.message_cls.split(".")
 
